@@ -370,7 +370,7 @@ pub fn check_ack_outcomes(logs: &[OpRec], during_shutdown: bool, counts: &mut Co
             }
             match status {
                 Some(Waited::Ready(s)) => counts.inc(format!("acks:{}", status_name(s))),
-                Some(Waited::ReadyPending) => findings.push(Finding { props: vec!["C12"], signature: "C12/ready-pending".into(),
+                Some(Waited::ReadyPending) => findings.push(Finding { props: if during_shutdown { vec!["C12", "C13"] } else { vec!["C12"] }, signature: "C12/ready-pending".into(),
                     detail: format!("awaiting {} yielded the placeholder status Pending", op.shape()), witness: witness(&[rec]), inconclusive: false }),
                 Some(Waited::LostWakeup) => findings.push(Finding { props: if during_shutdown { vec!["C12", "C13"] } else { vec!["C12"] }, signature: "C12/lost-wakeup".into(),
                     detail: format!("{} was acknowledged but the task that polled it was never woken", op.shape()), witness: witness(&[rec]), inconclusive: false }),
@@ -700,12 +700,22 @@ fn run_mixed(focus: &'static str, seed: u64, index: u64, clean: bool) -> CaseOut
             if clients.len() != expected_clients { findings.push(Finding { props: vec!["C17"], signature: "C17/client-thread-panicked-outside-catch".into(), detail: "a client thread died".into(), witness: case.clone(), inconclusive: false }); }
             for client in clients { counts.add("acknowledgements_first_polled_by_another_task", client.pre_polls); logs.extend(client.log); }
         }
-        Err(Waited::Deadlock(description)) => findings.push(Finding { props: vec!["C18", "C17"], signature: "C18/deadlock/clients-stuck-inside-api-calls".into(),
-            detail: format!("client threads never returned from their calls and nothing progresses: {}", description), witness: case.clone(), inconclusive: false }),
+        Err(Waited::Deadlock(description)) => {
+            let awaiting = rt::awaiting_now();
+            if awaiting > 0 {
+                findings.push(Finding { props: vec!["C12", "C18", "C13"], signature: "C12/acknowledgement-never-resolved/clients-parked-for-ever".into(),
+                    detail: format!("{} client(s) are parked awaiting acknowledgements that never resolve while every thread is idle and nothing progresses: {}", awaiting, description), witness: case.clone(), inconclusive: false });
+            } else {
+                findings.push(Finding { props: vec!["C18", "C17"], signature: "C18/deadlock/clients-stuck-inside-api-calls".into(),
+                    detail: format!("client threads never returned from their calls and nothing progresses: {}", description), witness: case.clone(), inconclusive: false });
+            }
+        }
         Err(other) => findings.push(Finding { props: vec!["C18"], signature: "inconclusive/clients".into(), detail: waited_name(&other), witness: J::Null, inconclusive: true }),
     }
     stop.store(true, Ordering::SeqCst);
-    for o in observers { let _ = o.join(); }
+    // the observers call the API: if the cache is wedged they may never return, so they are not joined blindly
+    let observers_done = rt::poll_until(Duration::from_millis(500), || observers.iter().all(|o| o.is_finished()));
+    if observers_done { for o in observers { let _ = o.join(); } } else { counts.inc("observer_threads_left_behind"); std::mem::forget(observers); }
     let advances = advancer.map(|a| a.join().unwrap_or(0)).unwrap_or(0);
     let trace = sched().stop_trace();
     sched().quiet();
@@ -1142,12 +1152,12 @@ fn run_sweep_other_key(focus: &'static str, seed: u64, index: u64) -> CaseOut {
         1 => {
             let (vj, vk) = (client.token(1), client.token(2));
             client.write(&sut.cache, WriteOp::PutWTtl { key: 1, value: vj, weight: 30, ttl: Duration::from_secs(1) });
-            // K expires two seconds later: same shard (2 shards), not yet expired when J is swept
-            client.write(&sut.cache, WriteOp::PutWTtl { key: 2, value: vk, weight: 30, ttl: Duration::from_secs(3) });
+            // K expires four seconds later: same shard (2 shards), well before its deadline when J is swept
+            client.write(&sut.cache, WriteOp::PutWTtl { key: 2, value: vk, weight: 30, ttl: Duration::from_secs(5) });
             client.settle_all(&marks);
             sched().forced_hits.store(0, Ordering::SeqCst);
             sched().force_delay(site, 8_000, 1);
-            sut.advance(3 * NS); // J (expiry +1 s) is past, K (expiry +3 s) is exactly at its deadline (not past); the current second maps to their shard
+            sut.advance(3 * NS); // J (expiry +1 s) is past, K (expiry +5 s) is still two seconds away; the current second maps to their shard
             let stalled = rt::poll_until(Duration::from_millis(300), || sched().forced_hits.load(Ordering::SeqCst) >= 1);
             // the sweeper now holds that TTL shard; change K's registration from a client
             let extend = index % 2 == 0;
@@ -1159,7 +1169,7 @@ fn run_sweep_other_key(focus: &'static str, seed: u64, index: u64) -> CaseOut {
             sched().clear_forced();
             // cross K's old deadline on both shards
             let _ = sut.quiesce().and_then(|_| sut.settle_fresh());
-            for _ in 0..(shards + 2) { sut.advance(NS); if sut.settle().is_err() { break; } }
+            for _ in 0..(shards + 3) { sut.advance(NS); if sut.settle().is_err() { break; } }
             let got = sut.cache.get(&2);
             counts.inc("reads_after_the_old_deadline_of_a_key_whose_ttl_was_changed");
             if got != Some(vk) {
